@@ -1894,8 +1894,9 @@ func (l *MPLSLabelStack) DecodeFromBytes(data []byte, options ...*MarshallingOpt
 		if len(labels) > 0 {
 			return NewMessageError(BGP_ERROR_UPDATE_MESSAGE_ERROR, BGP_ERROR_SUB_MALFORMED_ATTRIBUTE_LIST, nil, "MPLS label stack missing bottom-of-stack bit")
 		}
-		l.Labels = []uint32{}
-		return nil
+		// RFC 8277 2.2: the NLRI carries one or more labels. An empty stack
+		// cannot be serialised again either.
+		return NewMessageError(BGP_ERROR_UPDATE_MESSAGE_ERROR, BGP_ERROR_SUB_MALFORMED_ATTRIBUTE_LIST, nil, "MPLS label stack is empty")
 	}
 	l.Labels = labels
 	return nil
